@@ -33,7 +33,8 @@ STATUS = {0: "optimal", 1: "max_iterations", 2: "infeasible", 3: "unbounded"}
 def cases(draw):
     model = draw(models.lp_models())
     return {"model": model, "method": draw(st.sampled_from(METHODS)),
-            "edit": draw(st.sampled_from([None, None, "ub", "lb"]))}
+            "edit": draw(st.sampled_from([None, None, "ub", "lb"])),
+            "third": draw(st.sampled_from([None, "flip-same-object", "add-redundant-row"]))}
 
 
 def strategy(tier):
@@ -72,8 +73,22 @@ def check(case):
             P, b, built = models.build_problem(model)
         except Exception as ex:
             return Result.violation(f"build-raises:{exc_label(ex)}", f"{desc}: {ex!r}", classes)
-        rounds = ["first", "second"]
+        rounds = ["first", "second"] + (["third"] if case.get("third") else [])
         for rnd in rounds:
+            if rnd == "third" and case["third"] == "flip-same-object":
+                # the SAME objective expression object re-installed with the opposite orientation
+                obj_expr = P.objective
+                flipped = "maximize" if model["sense"] == "minimize" else "minimize"
+                (P.maximize if flipped == "maximize" else P.minimize)(obj_expr)
+                model = dict(model, sense=flipped)
+                classes.append("third:flip-same-object")
+            elif rnd == "third":
+                # a redundant row added after two solves: the model is extracted again from the same expression objects
+                nm = model["names"][0]
+                P.subject_to(b.var_objects()[nm] <= 1e6)
+                row = [[1.0] + [0.0] * (len(model["names"]) - 1), "<=", 1e6]
+                model = dict(model, constraints=model["constraints"] + [{"kind": "scalar", "rows": [row]}])
+                classes.append("third:add-redundant-row")
             if rnd == "second" and case["edit"] and model["names"]:
                 # change a declared bound between the solves (a model edit the cache must not hide)
                 nm = model["names"][0]
